@@ -236,13 +236,16 @@ PLAN["C07"] = {
             "to a trimmed pair), serialised to Timbuk text and loaded into BDDTopDownTreeAut and BDDBottomUpTreeAut: top-down down-rec with/without implication cache, without simulation (raw "
             "operands) and with the simulation the library itself computes (bottom-up downward simulation of the prepared union, automata inverted by GetTopDownAut); bottom-up up-nosim, the "
             "default overload, down-rec-sim, and up-sim with the identity relation on prepared operands; each verdict vs the reference subset construction and vs the explicit encoding; all "
-            "other 120+ flag combinations must throw; non-trivial = both languages non-empty and A != B",
+            "other 120+ flag combinations must throw; non-trivial = both languages non-empty and A != B. In addition, in every state of the breadth-first search over BDD operation histories of C08 "
+            "(3 handles; load, copy, assign, Union, Intersection, trimming, SetStateFinal, AddTransition; from the empty world and from seeded states with two handles sharing a table) every ordered "
+            "pair of live handles - a handle with itself and handles SHARING one transition table included - is compared by up_nosim and down_rec_sim (bottom-up) / down_rec with and without the "
+            "implication cache (top-down) against the reference inclusion of the handles' reference values, and the operands must read back unchanged",
     "assumptions": COMMON_ASSUMPTIONS + ["16-bit symbol encoding: the domains use at most 4 symbols"],
     "claim": "Every pair of the finite domains through every implemented BDD inclusion selection in both encodings; exhaustive within bounds.",
-    "technique": "bounded exhaustive enumeration of automata pairs x BDD encodings x InclParam configurations against a reference subset construction",
-    "quick": [("rel", "c07.unimpl"), ("rel", "c07.n2s2k2"), ("rel", "c07.n2s3k2"), ("rel", "c07.trim.n2s2.a3b3"), ("rel", "c07.trim.n3s2.a2b3"), ("rel", "c07.trim.n3ah.a2b3"), ("rel", "c07.trim.n3abf.a4b2")],   # c07.ov.n2k3 (one symbol name, two arities) is in the thorough tier
-    "thorough": [("rel", "c07.unimpl"), ("rel", "c07.n2s2k3"), ("rel", "c07.n2s3k2"), ("rel", "c07.trim.n2s2.a4b4"), ("rel", "c07.trim.n3s2.a3b3"), ("rel", "c07.trim.n3s2.a3b4"), ("rel", "c07.trim.n2s3.a4b4"), ("rel", "c07.trim.n3ah.a2b3"), ("rel", "c07.trim.n3ah.a3b3"), ("rel", "c07.trim.n3abf.a4b3"), ("rel", "c07.trim.n4ag.a2b4"), ("rel", "c07.ov.n2k3")],
-    "require": {"all": ["expect_included", "expect_not_included", "nonemptyA_included", "class_binary_rules_both_trimmed", "unimpl_calls"]},
+    "technique": "bounded exhaustive enumeration of automata pairs x BDD encodings x InclParam configurations against a reference subset construction, plus explicit-state breadth-first search over operation histories with inclusion observed on every pair of handles in every state",
+    "quick": [("rel", "c07.unimpl"), ("rel", "c07.n2s2k2"), ("rel", "c07.n2s3k2"), ("rel", "c07.trim.n2s2.a3b3"), ("rel", "c07.trim.n3s2.a2b3"), ("rel", "c07.trim.n3ah.a2b3"), ("rel", "c07.trim.n3abf.a4b2"), ("rel", "c07.hist.bu.d3"), ("rel", "c07.hist.td.d3"), ("rel", "c07.hist.bu.seeded1.d3"), ("rel", "c07.hist.td.seeded1.d3")],   # c07.ov.n2k3 (one symbol name, two arities) is in the thorough tier
+    "thorough": [("rel", "c07.unimpl"), ("rel", "c07.n2s2k3"), ("rel", "c07.n2s3k2"), ("rel", "c07.trim.n2s2.a4b4"), ("rel", "c07.trim.n3s2.a3b3"), ("rel", "c07.trim.n3s2.a3b4"), ("rel", "c07.trim.n2s3.a4b4"), ("rel", "c07.trim.n3ah.a2b3"), ("rel", "c07.trim.n3ah.a3b3"), ("rel", "c07.trim.n3abf.a4b3"), ("rel", "c07.trim.n4ag.a2b4"), ("rel", "c07.ov.n2k3"), ("rel", "c07.hist.bu.d4"), ("rel", "c07.hist.td.d4"), ("rel", "c07.hist.bu.seeded1.d3"), ("rel", "c07.hist.td.seeded1.d3"), ("rel", "c07.hist.bu.seeded2.d3")],
+    "require": {"all": ["expect_included", "expect_not_included", "nonemptyA_included", "class_binary_rules_both_trimmed", "unimpl_calls", "history_pairs_sharing_a_table", "history_pairs_not_included"]},
 }
 
 PLAN["C08"] = {
